@@ -131,6 +131,14 @@ def c06(run, scratch):
                         canary_pred=lambda ev: len(ev["splits"]) > 0 and len(ev["items"]) > 0,
                         signature=lambda ev: {"src": b2s(ev["src"])[:120]})
     recorditer_traces(run, scratch, SMALL_CORPUS[2:4] + (BIG_CORPUS if thorough else BIG_CORPUS[1:]), crlf=True)
+    # the iterator as a state machine: forward progress, fusedness and TERMINATION (a liveness property, checked under
+    # weak fairness of the caller) over every byte string within the bound
+    r = run_tlc(scratch, "MC_RecordIter", cfg="MC_RecordIter_thorough.cfg" if thorough else "MC_RecordIter.cfg", workers=8, timeout=1800)
+    if r.violation:
+        run.violation("MC_RecordIter", {"signature": {"step": "MC_RecordIter"}, "tlc": r.violation, "output": r.out[-4000:]})
+    run.add_tlc("MC_RecordIter", r, note="temporal: Forward, Fused, Terminates (count > 0 ~> exhausted) under WF")
+    # several record iterators open at once over mapping values, sub-mappings and clones, stepped in every order
+    system_programs(run, scratch, "records", 6 if thorough else 5)
     run.extra["exhaustive_note"] = ("MC_Stream enumerates every string within its bounds; every string up to the "
                                     "emit bounds is replayed into the real iterator; generated/corpus inputs are sampled")
     run.assumptions += ["TLC + Json module", "harness records what iter() yields (enc.rs, canary-checked)",
@@ -154,6 +162,10 @@ def c19(run, scratch):
         run.violation("MC_Meta_machines", {"signature": {"step": "MC_Meta_machines"}, "tlc": r.violation,
                                            "output": r.out[-5000:]})
     run.add_tlc("MC_Meta_machines", r, note="scanning machines = folds, all abstract streams within bound, Window=3")
+    r = run_tlc(scratch, "MC_Meta", cfg="MC_Meta_live.cfg", workers=8, timeout=900)
+    if r.violation:
+        run.violation("MC_Meta_live", {"signature": {"step": "MC_Meta_live"}, "tlc": r.violation, "output": r.out[-4000:]})
+    run.add_tlc("MC_Meta_live", r, note="temporal: the three scans terminate (phase = run ~> all done) under WF")
     cases = tlc_cases(run, scratch, "MC_Meta_gen", "MC_Meta",
                       cfg="MC_Meta_gen_thorough.cfg" if thorough else "MC_Meta_gen.cfg",
                       workers=14 if thorough else 10, timeout=3000)
@@ -708,6 +720,9 @@ def c11(run, scratch):
     if r.violation:
         run.violation("MC_CacheIO_general", {"signature": {"step": "MC_CacheIO_general"}, "tlc": r.violation, "output": r.out[-4000:]})
     run.add_tlc("MC_CacheIO_general", r, note="a crash at any point leaves a prefix of the canonical file")
+    # histories: writes that crash, torn and damaged copies, parses (accepted or rejected with the stated kind) and
+    # queries, in every order TLC enumerates (System.tla)
+    system_programs(run, scratch, "torn", 6 if t else 5)
     ev = cache_trace(run, scratch, "Trace_Cache_parse", "parse", 120 if t else 30, SMALL_CORPUS[:1] if t else [], _c11_corrupt,
                      lambda e: e["t"] == "parse", workers=14 if t else 10)
     for e in [x for x in ev if x["what"] == "edit"][:2] + [x for x in ev if x["what"] == "prefix"][-1:]:
@@ -763,6 +778,10 @@ def c15(run, scratch):
     if r.violation:
         run.violation("MC_CacheIO_general", {"signature": {"step": "MC_CacheIO_general"}, "tlc": r.violation, "output": r.out[-4000:]})
     run.add_tlc("MC_CacheIO_general", r, note="every sink response at every call, tiny sections: protocol invariants")
+    r = run_tlc(scratch, "MC_CacheIO", cfg="MC_CacheIO_live.cfg", workers=8, timeout=900)
+    if r.violation:
+        run.violation("MC_CacheIO_live", {"signature": {"step": "MC_CacheIO_live"}, "tlc": r.violation, "output": r.out[-4000:]})
+    run.add_tlc("MC_CacheIO_live", r, note="temporal: every write ends (ok, err or crash) under WF, interruptions bounded")
     cases = tlc_cases(run, scratch, "MC_CacheIO_policies", "MC_CacheIO", cfg="MC_CacheIO_policies.cfg", workers=8, timeout=900)
     args = ["--seed", run.seed, "--n", 80 if t else 20]
     if cases:
@@ -791,6 +810,9 @@ def c15(run, scratch):
     validate_pure_trace(run, scratch, "Trace_CacheIO", "Trace_CacheIO", events, workers=14 if t else 10, timeout=3000,
                         corrupt=_c15_corrupt, canary_pred=lambda e: not e["ok"],
                         signature=lambda ev: {"ok": ev["ok"], "any_fail": ev["any_fail"]})
+    # failing writes inside whole programs: what the sink had accepted is a prefix of every successful write of the
+    # same mapping, before or after (System!WriteCrash / WriteCache)
+    system_programs(run, scratch, "torn", 6 if t else 5)
     run.exhaustive = False
     run.assumptions += COMMON_ASSUME + ["canonical serialisation = what the same build writes into a Vec"]
 
@@ -806,6 +828,21 @@ def _c13_corrupt(ev):
     return ev
 
 
+def linearith_proofs(run, scratch):
+    """the saturating line rule for ALL widths and ALL field values: TLAPS proofs over LineArith.tla (the operators
+    MC_LineArith's step machine uses)"""
+    from .core import run_tlapm
+    proved, total, out, wall = run_tlapm(scratch, "LineArithProofs")
+    run.steps.append({"step": "TLAPS LineArithProofs", "obligations": total, "discharged": proved, "wall_s": round(wall, 2),
+                      "theorems": ["NoOverflow: every intermediate value and the result stay in 0..UMax",
+                                   "Exact: start <= line /\\ ideal <= UMax => result = ostart + line - start",
+                                   "Clamped: result = Min(UMax, ostart + Max(0, line - start))", "Monotone",
+                                   "UncheckedOverflows: the pinned left-to-right sum leaves the width for some in-range values"]})
+    if proved != total:
+        # proofs are about the specification only: a failure cannot be caused by a change to /repo
+        raise ToolError("TLAPS: unproved obligations in LineArithProofs\n" + out[-2000:])
+
+
 @prop("C13")
 def c13(run, scratch):
     t = run.tier == "thorough"
@@ -817,6 +854,7 @@ def c13(run, scratch):
             run.violation("MC_LineArith", {"signature": {"step": "MC_LineArith", "reader": reader}, "tlc": r.violation,
                                            "output": r.out[-4000:]})
         run.add_tlc(f"MC_LineArith_{reader}_saturating", r, note="every field/line value at small width: no overflow, offset rule kept")
+    linearith_proofs(run, scratch)
     events = harness_trace(scratch, "retrace", "total", ["--seed", run.seed, "--n", 400 if t else 90, "--queries", 60,
                                                          "--focus", "all", "--wild", "--files", ""])
     soup = harness_trace(scratch, "soup", "soup", ["--depth", 6 if t else 5])
@@ -855,6 +893,7 @@ def c12(run, scratch):
     if r.violation:
         run.violation("MC_LineArith", {"signature": {"step": "MC_LineArith"}, "tlc": r.violation, "output": r.out[-4000:]})
     run.add_tlc("MC_LineArith_cache_saturating", r, note="all u32 field values x all lines at small width: no overflow")
+    linearith_proofs(run, scratch)
     mc_reader(run, scratch)
     events = harness_trace(scratch, "corrupt", "corrupt", ["--seed", run.seed, "--n", 600 if t else 120])
     acc = [e for e in events if e["parse"]["ok"]]
@@ -864,6 +903,10 @@ def c12(run, scratch):
                                 signature=lambda ev: {"what": ev["what"],
                                                       "detail": sorted({c.get("detail", "") for c in ev["calls"] if c["status"] != "ok"})})
     run.steps[-1]["buffers_accepted_by_parse"] = len(acc)
+    # damaged and torn copies inside whole programs (System.tla): an accepted damaged file has to answer, a panic
+    # anywhere in a program is reported
+    system_programs(run, scratch, "torn", 6 if t else 5)
+    system_traces(run, scratch, 4 if t else 1, 600 if t else 400)
     run.exhaustive = False
     run.assumptions += COMMON_ASSUME + ["soundness of the two unsafe Pod casts is observed only through results",
                                         "provenance is computed from pointer ranges by the harness"]
@@ -968,6 +1011,10 @@ def c20(run, scratch):
     if r.violation:
         run.violation("MC_Sharing", {"signature": {"step": "MC_Sharing"}, "tlc": r.violation, "output": r.out[-4000:]})
     run.add_tlc("MC_Sharing_local", r, note="3 threads x 2 queries, all interleavings of iterator steps")
+    r = run_tlc(scratch, "MC_Sharing", cfg="MC_Sharing_live.cfg", workers=8, timeout=900)
+    if r.violation:
+        run.violation("MC_Sharing_live", {"signature": {"step": "MC_Sharing_live"}, "tlc": r.violation, "output": r.out[-4000:]})
+    run.add_tlc("MC_Sharing_live", r, note="temporal: every thread that keeps stepping finishes its query (running ~> finished) under per-thread WF")
     events = harness_trace(scratch, "threads", "threads", ["--seed", run.seed, "--n", 60 if t else 12, "--queries", 300 if t else 120,
                                                            "--files", ",".join(SMALL_CORPUS[:3] if t else SMALL_CORPUS[:1])])
     qe = [e for e in events if e["t"] == "q"]
